@@ -24,6 +24,12 @@ CHECKS = {
     "C06": ("translation_validation", "E1 bp2smt",
             "z3 decides for all input valuations and all non-negative contents of entities read through .output that the circuit condition of the entity found at the user tile, evaluated on the networks actually wired to it, is true exactly when the assigned expression is positive; a missing circuit condition is a closed-form violation.",
             "SMT (z3 QF_UFBV) translation validation of entity circuit conditions, all inputs and contents"),
+    "C07": ("translation_validation", "E1 bp2smt + closed clauses",
+            "Every invocation cell runs the real entry point as a subprocess; the decoded stdout / -o text is compared with the planned circuit (an independent reading of the LayoutPlan captured in the same run): closed entity-by-entity / wire-by-wire equality modulo numbering and z3 equivalence of decoded text and plan on every output and entity condition for all inputs (K-step histories for stateful programs); all cells of one program/option set must decode to one blueprint.",
+            "SMT equivalence of decoded CLI text and planned circuit + exhaustive invocation matrix"),
+    "C08": ("other", "E3 cpsat2smt + E1 + closed clauses",
+            "All-outcomes clause by solver: every CP-SAT model the layout engine builds is captured and translated to z3; `exists placement with two intersecting collision boxes` must be UNSAT, and user entities must be singleton variables at the program's tiles - a verdict for every placement the solver may return under any time budget. Post-solve stages (relays, wiring, emission) are checked on contract-conforming outcomes (real solve, first k solves UNKNOWN, z3-chosen adversarial placements accepted by the real CP-SAT) with closed paste clauses and the E1 reference check.",
+            "captured CP-SAT model -> z3 (all solver outcomes) + closed paste clauses on solver-chosen outcomes"),
     "C10": ("translation_validation", "E1 bp2smt twins",
             "Two blueprints of the same source (optimised / --no-optimize) produced by the real compiler are encoded side by side over shared input variables; z3 decides equality of every common named output and entity condition for all inputs, and of the end-of-step values for all K-step histories of stateful programs.",
             "SMT equivalence checking of two emitted blueprints (all inputs / bounded histories)"),
@@ -92,6 +98,7 @@ def main():
         },
         "engines": [
             {"name": "E1 bp2smt", "path": "/verif/vf", "serves_properties": sorted(CHECKS), "kind_free_text": "emitted blueprint JSON -> z3 QF_UFBV; inputs, histories, entity contents symbolic; reference from the generator's own AST"},
+            {"name": "E3 cpsat2smt", "path": "/verif/vf/cpsat2smt.py", "serves_properties": ["C08"], "kind_free_text": "CpModel protos captured at CpSolver.solve -> z3 LIA; all-outcomes queries; candidate outcomes pinned back into the real CP-SAT"},
             {"name": "E2 pyast2smt / CrossHair", "path": "/verif/vf/pyast2smt.py", "serves_properties": ["C11"], "kind_free_text": "compiler kernels executed symbolically from their current source (AST -> z3) or by CrossHair on the real functions"},
         ],
         "checks": checks,
